@@ -39,6 +39,15 @@ type ChanEv struct {
 	C  chan int
 }
 
+// RoutedEv provides its own type name, and that name depends on the value (a topic): handlers are
+// registered for the Go type and must receive every value of it.
+type RoutedEv struct {
+	ID uint64
+	S  string
+}
+
+func (e RoutedEv) EventTypeName() string { return "routed.topic-" + strconv.FormatUint(e.ID%7, 10) }
+
 // HandlerCB is what a subscribed handler calls: ctx is nil for plain handlers.
 type HandlerCB func(ctx context.Context, id uint64, payloadOK bool)
 
@@ -271,6 +280,8 @@ func Drivers() []Driver {
 				}
 				return e[0], e[1] == e[0]^0xabcdef
 			}),
+		newDrv[RoutedEv]("RoutedEv(value-dependent type name)", func(id uint64) RoutedEv { return RoutedEv{ID: id, S: payload(id)} },
+			func(e RoutedEv) (uint64, bool) { return e.ID, e.S == payload(e.ID) }),
 		newDrv[ChanEv]("ChanEv(unencodable)", func(id uint64) ChanEv { return ChanEv{ID: id, S: payload(id), C: make(chan int)} },
 			func(e ChanEv) (uint64, bool) { return e.ID, e.S == payload(e.ID) && e.C != nil }),
 	)
